@@ -3,6 +3,7 @@ module verifharness
 go 1.22.7
 
 require (
+	github.com/RoaringBitmap/roaring v1.5.0
 	github.com/protomaps/go-pmtiles v0.0.0
 	zombiezen.com/go/sqlite v1.1.2
 )
@@ -17,7 +18,6 @@ require (
 	github.com/Azure/azure-sdk-for-go/sdk/azcore v1.14.0 // indirect
 	github.com/Azure/azure-sdk-for-go/sdk/internal v1.10.0 // indirect
 	github.com/Azure/azure-sdk-for-go/sdk/storage/azblob v1.3.2 // indirect
-	github.com/RoaringBitmap/roaring v1.5.0 // indirect
 	github.com/aws/aws-sdk-go-v2 v1.30.3 // indirect
 	github.com/aws/aws-sdk-go-v2/aws/protocol/eventstream v1.6.3 // indirect
 	github.com/aws/aws-sdk-go-v2/internal/configsources v1.3.15 // indirect
